@@ -9,6 +9,9 @@ CONSTANTS
   MaxClosed = 0
   MaxBal = 0
   MaxVals = 2
+  Gaps = {}
+  RFs = {}
+  Ivs = {}
 INVARIANTS TypeC17 VarNonNeg MeanInRange OrderFreeC17 VarAlt VarZeroIffConstant ShiftScale WelfordExact LossesAreSubset
 PROPERTIES PersistIsStutter
 CHECK_DEADLOCK FALSE
